@@ -262,6 +262,21 @@ def rewind_uploads(deps, v: Any) -> None:
             rewind_uploads(deps, x)
 
 
+def iter_uploads(deps, v: Any):
+    from pydantic import BaseModel
+    if isinstance(v, deps.base_model.Upload):
+        yield v
+    elif isinstance(v, BaseModel):
+        for k in type(v).model_fields:
+            yield from iter_uploads(deps, getattr(v, k))
+    elif isinstance(v, dict):
+        for x in v.values():
+            yield from iter_uploads(deps, x)
+    elif isinstance(v, list):
+        for x in v:
+            yield from iter_uploads(deps, x)
+
+
 def snap(deps, v: Any) -> Any:
     """Structural snapshot of a caller-owned variables tree (Uploads by identity, models by their dump) to detect in-place modification."""
     from pydantic import BaseModel
@@ -535,9 +550,16 @@ async def sequence_case(r: core.Run, deps, seed: int, variant: str):
     steps = [st for st in steps for _ in (0, 1)]  # every call is retried once with the very same variables object
     for i, (variables, exp_vars, exp_files) in enumerate(steps):
         n0 = len(captured)
-        for up_ in (f_ for f_ in [variables] if False):
-            pass
-        rewind_uploads(deps, variables)
+        # the first call of a pair starts from a caller who has already sniffed a few bytes of the stream, the retry from wherever the first call left
+        # the stream: in both cases all four clients send the whole file (the transport rewinds seekable files), so none of them may differ
+        if i % 2 == 0:
+            rewind_uploads(deps, variables)
+            if (seed + i) % 3 == 0:
+                for up_ in iter_uploads(deps, variables):
+                    up_.content.read(3)
+                r.count("sequence_calls_with_sniffed_stream")
+        else:
+            r.count("sequence_retries_without_rewind")
         try:
             if variant.startswith("async"):
                 await client.execute("query Q { f }", "Q", variables, **shared_kwargs)
